@@ -164,7 +164,7 @@ func RunC06(e *core.Env) int {
 				}
 				v := &core.Violation{Property: "C06", Monitor: "exec-model", Symptom: "stored-value-differs-from-notation", Case: r.Scen,
 					Features: map[string]string{"mech": mech, "dst_kind": dk, "src_kind": sk, "extra": extra, "nested": fmt.Sprint(strings.Contains(fp, ".")), "toggles": togglesOf(fi.Opts), "cover": coverOf(lo), "obs": lo.Kind, "why": why},
-					Detail: fmt.Sprintf("%s(%s): leaf %s holds %s; the notation (per reference model) denotes %s", r.Fn, r.Val, mm.Path, mm.Got, mm.Want)}
+					Detail:   fmt.Sprintf("%s(%s): leaf %s holds %s; the notation (per reference model) denotes %s", r.Fn, r.Val, mm.Path, mm.Got, mm.Want)}
 				if seen[r.Scen+v.Fingerprint()] {
 					continue
 				}
